@@ -12,14 +12,14 @@ LEVEL = ("bounded symbolic execution of the real code: the functions named in th
 CLAIMED = {
  "C01": ("5/C01", "bounded, not a proof: S<=2 shards / K<=2 hashes for the phase lemmas (thorough 3), whole cycles at (1,1),(2,0) (thorough (1,2),(2,1),(3,0)); trusted base = stubs for logging, metrics, errgroup (synchronous), weightedrand (any positive-weight choice), the Shard.APIGet/APIPost transport model, report well-formedness (guaranteed by C10/C14)",
          "unit of assurance is one coordination cycle of one replica; coverage and justified-removal are asserted on the observable POST bodies vs GET answers, crash-freedom on every path"),
- "C03": ("5/C03", "SINGLE-CYCLE LAYER ONLY: the scale-up clause, at-most-once normal-state placement, placement-when-room (K=1) and no-op-from-a-converged-state are decided per cycle; the 'within a bounded number of cycles' quantifier over closed-loop runs is NOT covered (no multi-cycle exploration was built)",
-         "necessary single-cycle consequences of convergence; says nothing about how many cycles convergence takes"),
+ "C03": ("5/C03 and 9", "two layers: (1) closed loop of the real coordinator with 2 (thorough 3) real sidecar bookkeepers and ONE target of concrete size over 5 (6) cycles from every initial placement - convergence and a following no-op cycle; (2) single-cycle clauses (scale-up, at-most-once normal-state placement, placement-when-room for K=1, no-op from a converged state) with symbolic loads. Closed loops with K>=2 or symbolic sizes, later growth and targets added/removed during the run are NOT covered",
+         "bounded convergence for one target plus per-cycle capacity clauses"),
  "C04": ("5/C04", "bounded: one lemma per placement site with S<=2 (3), K<=2 and whole cycles at (1,1) (thorough (1,2),(2,1),(2,2)); seriesWithRate is an uninterpreted summary whose bounds are proved in floating-point theory in the same run; integer division in tryScaleUp is abstracted and counterexamples are confirmed with exact arithmetic",
          "placements are weighed with the series reported in the cycle, against the load the destination reported"),
  "C05": ("5/C05", "bounded as C01; clause (i) same-cycle marking, clause (ii) hand-over threshold (3, from README) on gcTargets and whole cycles; clause (iii) counter restart is decided in C10's harness; their composition over several cycles is argued, not executed",
          "per-cycle clauses of the hand-over protocol"),
- "C06": ("5/C06", "SINGLE-CYCLE LAYER ONLY: every fault-produced state (lone in_transfer copy, duplicates in every state/load/counter combination) is decided as a one-cycle progress obligation; recovery 'within a bounded number of cycles' over closed-loop runs with injected faults is NOT covered",
-         "progress lemmas, not liveness"),
+ "C06": ("5/C06 and 9", "two layers: (1) the closed loop of C03 (K=1) with ONE injected fault (lost target POST, shard not ready for a cycle, sidecar restarted from its store) at cycle 0 or 1 on any shard, then fault-free cycles: converged within 6 (7) cycles; (2) single-cycle progress obligations for every fault-produced state (lone in_transfer copy, duplicates in every state/load/counter combination). More than one fault, later faults, K>=2 in the loop are NOT covered",
+         "bounded recovery for one target and one fault plus per-cycle progress lemmas"),
  "C07": ("5/C07", "bounded: every ChangeScale argument of whole cycles at (1,1),(2,0) (thorough (1,2),(2,1),(3,0),(4,0)) plus the tryScaleDown lemma with S<=3; symbolic idle instants against a symbolic, monotone clock; idle instants within 1 s of the expiry boundary are excluded so that native replay is deterministic",
          "all scale requests of the cycle, not only the last"),
  "C08": ("5/C08", "bounded: complete per-shard request log under the full seven-step health script at (1,1),(2,0) (thorough (1,2),(2,1)); destination-is-in-sync lemmas with S<=3",
@@ -34,14 +34,14 @@ CLAIMED = {
          "one request through the real ServeHTTP / scraper / tee / status code"),
  "C14": ("5/C14", "bounded: StatisticSeries over <=3 (4) rows, window arithmetic in exact floating-point theory for values < 2^20 (2^32), runtimeInfo sums over <=2 (3) targets, composition through ServeHTTP on the fixed payload; relabel.Process is a keep/drop contract model",
          "accounting kernels + composition"),
- "C17": ("5/C17", "SEQUENTIAL HISTORIES ONLY: first round + one step (update or reload) over 2 jobs with <=1 target per group; interleavings of readers and writers are not decided (no thread model); targetsFromGroup is summarised",
-         "sequential snapshot / tracking semantics"),
+ "C17": ("5/C17", "SEQUENTIAL HISTORIES ONLY: first round + one step (update or reload) over 2 jobs with <=1 target per group; interleavings of readers and writers are not explored (no thread model) - in their place a structural lemma is decided: a reload / an update reads and replaces the target sets inside ONE critical section (lock acquisitions counted by the executor; such a counterexample is confirmed by concrete re-execution of the SSA, not natively); targetsFromGroup is summarised",
+         "sequential snapshot / tracking semantics + single-critical-section lemma"),
  "C18": ("5/C18", "bounded: replica counts in [0,6], <=2 claim templates, <=3 pods in every order; client-go replaced by recording fakes",
          "calls made to the Kubernetes API, not the API server's behaviour"),
  "C19": ("5/C19", "bounded self-composition with K=1, B one shard, A one or two shards (quick: A with concrete loads); clock frozen; cross-cycle influence through explorer-owned status objects is outside",
          "two-run equivalence of B's requests"),
- "C20": ("5/C20", "IN PART: sequential kernel only (Get / exploreOnce / table updates, estimate through the real UpdateScrapeResult); the retry loop, at-most-one-in-flight and all interleavings are NOT covered (no thread model)",
-         "sequential kernel"),
+ "C20": ("5/C20", "IN PART: sequential kernel (Get / exploreOnce / table updates keep the entry objects the workers hold, estimate through the real UpdateScrapeResult) and the first-assignment clause on two real coordination cycles around one scripted probe; the retry loop, at-most-one-in-flight and all interleavings are NOT covered (no thread model)",
+         "sequential kernel + first-assignment clause"),
 }
 
 NOT_APPLICABLE = {
